@@ -5,6 +5,7 @@ Oracle: an invariant over the execution history.  Counting sources tag every row
 - (index of the delivered row + 1).  Invariant: the maximum look-ahead is <= SAMPLE_SIZE (100) + 64 for
 every source at every delivery, and it does not grow when the stream gets longer."""
 import copy
+import os
 
 from hypothesis import strategies as st
 
@@ -46,13 +47,15 @@ def cases_(draw, tier):
         if s['k'] == 'rows_fn' and s['fn'] == 'swallow':
             s['fn'] = 'identity'
     sizes = [300, 1500] if tier == 'quick' else draw(st.sampled_from([[300, 2000], [1000, 20000], [2000, 100000]]))
-    form = draw(st.sampled_from(['generator', 'load_tuple', 'sources', 'load_file']))
+    form = draw(st.sampled_from(['generator', 'load_tuple', 'sources', 'load_file', 'sized_iterable']))
     if form == 'load_file' and tier == 'quick':
         sizes = [1500, 4000]          # load() samples 1000 rows for inference
     return {'n_src': n_src, 'steps': prog['steps'], 'source_form': form, 'sizes': sizes,
             # a column that stays null for the first rows of the stream (inference must not wait for a value)
             'null_prefix': draw(st.sampled_from([0, 0, 50, 150, 10 ** 9])),
-            'infer': draw(st.sampled_from([None, 'full', 'pytypes']))}
+            'infer': draw(st.sampled_from([None, 'full', 'pytypes'])),
+            # dump_to_sql right behind the sources, writing in batches of the given size (0 = row by row)
+            'to_sql': draw(st.sampled_from([None, None, None, 0, 1, 2, 1000]))}
 
 
 NON_DROPPING = ['add_field', 'add_computed', 'select_fields', 'rename_fields', 'find_replace', 'set_type', 'validate', 'printer',
@@ -121,8 +124,24 @@ def run(case, n, ctx):
     env = gp.Env(ctx, 'n%d' % n)
     steps = [gp.build(s, env) for s in case['steps']]
     form = case['source_form']
+    if case.get('to_sql') is not None:
+        steps.insert(0, dataflows.dump_to_sql({'t1': {'resource-name': 'res_1'}},
+                                              engine='sqlite:///' + os.path.join(ctx.tmpdir(), 'c06.sqlite'),
+                                              batch_size=case['to_sql']))
     if form == 'generator':
         srcs = [source(s) for s in range(case['n_src'])]
+    elif form == 'sized_iterable':
+        # a lazy dataset object: iterable, knows its length, produces its rows on demand
+        class Sized:
+            def __init__(self, s_):
+                self.s_ = s_
+
+            def __iter__(self):
+                return source(self.s_)
+
+            def __len__(self):
+                return n
+        srcs = [Sized(s) for s in range(case['n_src'])]
     elif form == 'sources':
         srcs = [dataflows.sources(*[source(s) for s in range(case['n_src'])])]
     elif form == 'load_file':
@@ -217,12 +236,18 @@ def check(case, ctx):
         if any(p != n for p in pulled):
             raise Violation('source-not-fully-consumed', {'pulled': pulled, 'n': n, 'program': prog})
         bound = BOUND + (900 if case['source_form'] == 'load_file' else 0)     # load() samples 1000 rows
+        if case.get('to_sql'):
+            bound += case['to_sql']                                            # plus one write batch
+            classes.append('dump_to_sql:batch=%d' % case['to_sql'])
+        elif case.get('to_sql') == 0:
+            classes.append('dump_to_sql:row-by-row')
         if worst['la'] > bound:
             raise Violation('look-ahead-exceeds-constant', {'n': n, 'look_ahead': worst['la'], 'bound': bound, 'at': worst['at'],
                                                             'program': prog, 'source_form': case['source_form']})
         results.append((n, worst['la'], delivered))
     (n1, la1, _), (n2, la2, d2) = results[0], results[-1]
-    if la2 > la1 + 64:
+    # (only meaningful when the shorter stream is itself longer than the constant: otherwise its look-ahead is capped by n1)
+    if n1 > bound and la2 > la1 + 64:
         raise Violation('look-ahead-grows-with-stream-length', {'n1': n1, 'look_ahead1': la1, 'n2': n2, 'look_ahead2': la2,
                                                                 'program': prog})
     if d2 == 0:
